@@ -450,6 +450,11 @@ def textrenderSlice : P String := do
   | none => pure "P"
   | some s => pure (hex (String.ofList s))
 
+/-- `dedupe tree` → attributes of every element after RemoveDuplicateAttributes, pre-order -/
+def dedupeSlice : P String := do
+  let t ← node
+  pure ("|".intercalate ((dedupNode t).elems.map (fun e => s!"{e.tag}:{attrsStr e.attrs}")))
+
 def outElP : P OutEl := do
   let c ← bool; let h ← str; let t ← str
   pure { content := c, html := h.toList, text := t.toList }
@@ -465,6 +470,7 @@ def dispatch (slice : String) : Option (P String) :=
   match slice with
   | "textrender" => some textrenderSlice
   | "docoutput" => some docoutputSlice
+  | "dedupe" => some dedupeSlice
   | "docfilters" => some docfilters
   | "tableclass" => some tableclass
   | "rootdomain" => some rootdomain
